@@ -127,6 +127,8 @@ def base_shapes(n):
 def shapes(n):
     """base shapes plus repeated negation: on the whole expression, on the first and on the last operand"""
     yield from base_shapes(n)
+    # a single name in parentheses (each also spelled without blanks around the parentheses below: not(x), (x)or(y))
+    yield from {1: ("({})", "not ({})", "not (({}))"), 2: ("({}) and ({})", "not ({}) or ({})", "({}) or not ({})", "{} and ({})", "({}) or {}"), 3: ("({}) or ({}) and not ({})", "not ({}) and ({} or ({}))")}.get(n, ())
     if n == 1:
         yield from ("not not {}", "not (not {})", "not not not {}")
         return
@@ -185,8 +187,14 @@ class C02Bounded(Bounded):
                 cap = 60 if tier == "quick" else (400 if n <= 3 else 100)
                 if len(combos) > cap:
                     combos = rnd.sample(combos, cap)
+                spellings = []
                 for ops_ in combos:
-                    expr = sh.format(*ops_)
+                    e0 = sh.format(*ops_)
+                    spellings.append(e0)
+                    if "(" in e0:       # the same expression without blanks around the parentheses: a parenthesis separates tokens too
+                        spellings.append(e0.replace(" (", "(").replace("( ", "(").replace(" )", ")").replace(") ", ")"))
+                        spellings.append(e0.replace("(", "( ").replace(")", " )").replace("  ", " "))
+                for expr in spellings:
                     ev += 1
                     try:
                         ref = Ref(tokenize(expr), NAMES).parse_or()
